@@ -88,6 +88,14 @@ func c19ExpiryCheck(l *explore.Local, _ struct{}, c c19Expiry) *explore.Fail {
 			if c.First {
 				n = p.untilStep() // cross one step: the next one will not clock length
 			}
+			if c.Skew < 0 {
+				// trigger -Skew machine cycles before the following frame-sequencer step (the write lands in the very
+				// cycle at whose end the step happens when Skew = -1)
+				if f := p.tick(n, ctx); f != nil {
+					return f
+				}
+				return p.tick(p.untilStep()+c.Skew, ctx)
+			}
 			return p.tick(n+c.Skew, ctx)
 		},
 	}
@@ -96,7 +104,7 @@ func c19ExpiryCheck(l *explore.Local, _ struct{}, c c19Expiry) *explore.Fail {
 			return f
 		}
 	}
-	if c.First != (p.mod.Step%2 == 1) {
+	if c.Skew >= 0 && c.First != (p.mod.Step%2 == 1) {
 		return explore.Failf("harness: could not reach the requested frame-sequencer half", "%s: model step %d", ctx, p.mod.Step)
 	}
 	if c.After {
@@ -172,7 +180,7 @@ func init() {
 					}
 				}
 			}, func() struct{} { return struct{}{} }, apuDFS)
-		explore.Product(c.R, "expiry-runs", explore.PartOpt{Bound: "run to expiry, every cycle compared", Domain: "channel x t x half x enable mode x skew {0,1,700}; length data written after / before / during the power-off that precedes the run"},
+		explore.Product(c.R, "expiry-runs", explore.PartOpt{Bound: "run to expiry, every cycle compared", Domain: "channel x t x half x enable mode x skew {0,1,700, and 1 or 2 cycles before the following frame-sequencer step}; length data written after / before / during the power-off that precedes the run"},
 			func(yield func(c19Expiry) bool) {
 				for ch := 0; ch < 4; ch++ {
 					var ts []uint8
@@ -188,7 +196,7 @@ func init() {
 					for _, t := range ts {
 						for _, first := range []bool{false, true} {
 							for _, after := range []bool{false, true} {
-								for _, skew := range []int{0, 1, 700} {
+								for _, skew := range []int{0, 1, 700, -1, -2} {
 									if !yield(c19Expiry{Ch: ch, T: t, First: first, After: after, Skew: skew}) {
 										return
 									}
